@@ -384,6 +384,14 @@ func runConfig(c config) {
 	run.Count("bytes_exchanged", vc.BytesIn+vc.BytesOut)
 	run.Count("configurations_completed", 1)
 
+	// --- every fourth configuration: two more controllers pair AT THE SAME TIME on two connections (the owner's phone
+	// and tablet): their M3 and M5 requests leave together; each is a conformant controller that knows the code
+	if c.seed%4 == 1 {
+		if !twoAtOnce(c, a, rnd) {
+			return
+		}
+	}
+
 	// --- every third configuration: the controller was reset and pairs again under the SAME identifier with a NEW
 	// key pair (the accessory has used the old pairing in this process); the exchange must work for this identity too
 	if c.seed%3 != 0 {
@@ -521,6 +529,7 @@ func main() {
 	wg.Wait()
 	_ = ed25519.PublicKeySize
 	r.Floor("configurations_completed", int(r.Counter("configurations_completed")), n*9/10)
+	r.Floor("pairs_of_controllers_paired_at_the_same_time+violations", int(r.Counter("pairs_of_controllers_paired_at_the_same_time"))+r.ViolationCount(), n/6)
 	r.Floor("right_code_after_wrong_code_on_the_same_connection+violations", int(r.Counter("right_code_after_wrong_code_on_the_same_connection"))+r.ViolationCount(), n/5)
 	r.Finish()
 }
@@ -544,4 +553,73 @@ func idShape(id string) string {
 		return "upper-case"
 	}
 	return "digits-only"
+}
+
+// twoAtOnce: see runConfig. false = a failure was reported.
+func twoAtOnce(c config, a *app.App, rnd *rand.Rand) bool {
+	type side struct {
+		id  *refctl.Identity
+		cn  *refctl.Conn
+		s   *refctl.Setup
+		rnd *rand.Rand
+		err error
+	}
+	var sides [2]*side
+	for i := range sides {
+		cn, err := refctl.Dial(a.Addr)
+		if err != nil {
+			run.Inconclusive("dial: " + err.Error())
+			return false
+		}
+		defer cn.Close()
+		cn.Timeout = 20 * time.Second
+		sd := &side{id: refctl.NewIdentity(fmt.Sprintf("%s-twin-%d", c.CtrlID, i), rnd), cn: cn, rnd: rand.New(rand.NewSource(c.seed*13 + int64(i)))}
+		sd.s, sd.err = cn.StartSetup(sd.id, a.Code(), sd.rnd)
+		if sd.err != nil {
+			fail(c, "two-at-once:"+stageSig(sd.err), fmt.Sprintf("controller %d of two that pair at the same time: M1/M2 failed: %v", i, sd.err), nil)
+			return false
+		}
+		sides[i] = sd
+	}
+	for step, name := range []string{"M3/M4 (the SRP proofs)", "M5/M6 (the key exchange)"} {
+		var wg sync.WaitGroup
+		start := make(chan struct{})
+		for _, sd := range sides {
+			wg.Add(1)
+			go func(sd *side) {
+				defer wg.Done()
+				<-start
+				if step == 0 {
+					sd.err = sd.cn.SetupVerify(sd.s)
+				} else {
+					sd.err = sd.cn.SetupExchange(sd.s)
+				}
+			}(sd)
+		}
+		close(start)
+		wg.Wait()
+		for i, sd := range sides {
+			if sd.err != nil {
+				fail(c, "two-at-once:"+stageSig(sd.err), fmt.Sprintf("two controllers that know the setup code pair at the same time on two connections; %s of controller %d failed: %v", name, i, sd.err), nil)
+				return false
+			}
+		}
+	}
+	ctrls, err := app.Controllers(a.Dir)
+	if err != nil {
+		fail(c, "two-at-once:stored-entity-unreadable", "entity files unreadable after two simultaneous pair-setups: "+err.Error(), nil)
+		return false
+	}
+	for i, sd := range sides {
+		found := false
+		for _, e := range ctrls {
+			found = found || (e.Name == sd.id.ID && bytes.Equal(e.PublicKey, sd.id.LTPK))
+		}
+		if !found {
+			fail(c, "two-at-once:controller-not-stored", fmt.Sprintf("controller %d of two that paired at the same time (both answered M6) is not stored", i), nil)
+			return false
+		}
+	}
+	run.Count("pairs_of_controllers_paired_at_the_same_time", 1)
+	return true
 }
